@@ -95,13 +95,38 @@ def render(cul, layout, d):
     return '%d %s %d' % (dd, name, y)
 
 
+_CHUNKS = {}
+
+
+def chunks_for(cul, layout):
+    """Dates of one (culture, layout) packed into shards so that literals whose digit strings coincide
+    (1/11/2010 vs 11/1/2010) are parsed one after the other by the same warm model: two keys forced to collide."""
+    key = (cul, layout)
+    if key not in _CHUNKS:
+        dates = CFG['en_dates'] if cul == 'en-us' else CFG['other_dates']
+        groups = {}
+        for d in dates:
+            digits = ''.join(c for c in render(cul, layout, d) if c.isdigit())
+            groups.setdefault((''.join(sorted(digits)), d.year), []).append(d)
+        out, cur = [], []
+        for k in sorted(groups):
+            cur.extend(groups[k])
+            if len(cur) >= CFG['chunk']:
+                out.append(cur)
+                cur = []
+        if cur:
+            out.append(cur)
+        _CHUNKS[key] = out
+    return _CHUNKS[key]
+
+
 def build(ch):
     cul = ch.pick('culture', dt.CULTURES)
     layout = ch.pick('layout', EN_LAYOUTS if cul == 'en-us' else OTHER_LAYOUTS)
-    dates = CFG['en_dates'] if cul == 'en-us' else CFG['other_dates']
-    ci = ch.pick_index('chunk', (len(dates) + CFG['chunk'] - 1) // CFG['chunk'])
+    chunks = chunks_for(cul, layout)
+    ci = ch.pick_index('chunk', len(chunks))
     ch.shard()
-    d = ch.pick('date', dates[ci * CFG['chunk']:(ci + 1) * CFG['chunk']])
+    d = ch.pick('date', chunks[ci])
     with_carrier = CFG['tier'] == 'thorough' or (cul == 'en-us' and d in CFG['boundary'])
     pre, post = ch.pick('carrier', (('', ''), dt.CARRIER[cul]) if with_carrier else (('', ''),))
     lit = render(cul, layout, d)
